@@ -344,7 +344,7 @@ func (proc *Processor) ExecuteStatement(ctx context.Context, stmt parser.Stateme
 			e := func() error {
 				filePath, e := CreateFilePath(createTableStatement.Table, proc.ReferenceScope.Tx.Flags.Repository)
 				if e != nil {
-					return NewIOError(createTableStatement.Table, err.Error())
+					return NewIOError(createTableStatement.Table, e.Error())
 				}
 
 				tableIndentifier := parser.Identifier{
